@@ -24,7 +24,8 @@ for p in props:
         'technique': c.TECHNIQUE,
     })
 engines = {}
-for c in checks: engines.setdefault(c['engine'], []).append(c['property_id'])
+for c in checks:
+    for e in c['engine'].split('+'): engines.setdefault(e, []).append(c['property_id'])
 ENG = {
  'ENUM': ('vf/core.py', 'bounded-exhaustive input enumeration of the real code against a reference model, sharded over 16 processes'),
  'HIST': ('vf/engines/hist.py', 'explicit-state search over operation histories of real objects (state = history, replayed on fresh objects)'),
@@ -38,7 +39,7 @@ m = {
  'hooks': {'guard': 'COBA_VERIF', 'enable': 'no hooks in /repo: checks import coba from /repo (PYTHONPATH) and substitute seams from outside; ./check exports COBA_VERIF=1 for future hooks',
            'baseline_off_cmd': 'cd /repo && env -u COBA_VERIF /venv/bin/python -m pytest -ra -q -p no:cacheprovider --timeout=900 --continue-on-collection-errors',
            'source_commits': [], 'add_only': True},
- 'engines': [{'name': k, 'path': ENG[k][0], 'serves_properties': v, 'kind_free_text': ENG[k][1]} for k, v in sorted(engines.items())],
+ 'engines': [{'name': k, 'path': ENG.get(k, ('vf/props', k))[0], 'serves_properties': v, 'kind_free_text': ENG.get(k, ('', k))[1]} for k, v in sorted(engines.items())],
  'checks': checks,
  'notes': 'All checks: model checking in the sense of bounded exhaustive exploration of the real implementation. See DESIGN.md. known_findings.json lists genuine defects (fixed ones by commit).',
  'not_applicable': na,
